@@ -568,12 +568,21 @@ impl Mode for StepMode {
                 }
                 // property-specific sweeps
                 match prop {
+                    "C05" => {
+                        self.gen_branch_table(ctx, &forms, &mut rng, emit);
+                        self.gen_call_programs(ctx, &mut rng, emit);
+                        return;
+                    }
+                    "C06" => {
+                        self.gen_entry_cases(ctx, &mut rng, emit);
+                        return;
+                    }
                     "C02" | "C03" => self.gen_value_sweeps(ctx, &forms, &mut rng, &mut idx_dummy(), emit),
                     "C04" => self.gen_bit_cube(ctx, &forms, &mut rng, emit),
-                    "C05" => self.gen_branch_table(ctx, &forms, &mut rng, emit),
                     _ => {}
                 }
             }
+            "C07" => self.gen_all_words(ctx, &mut rng, emit),
             _ => {}
         }
     }
@@ -785,6 +794,230 @@ impl StepMode {
     }
 }
 
+impl StepMode {
+    /// registers that make memory operands mostly valid
+    fn addr_regs(rng: &mut Rng) -> [u32; 8] {
+        let mut er = [0u32; 8];
+        for e in er.iter_mut() {
+            *e = if rng.chance(2, 3) { data_addr(rng, 4, true) } else { interesting32(rng) };
+        }
+        er[7] = data_addr(rng, 4, false).max(0x400010) & !3;
+        er
+    }
+
+    /// C07: every first word, and every second / third word of the multi-word prefixes
+    fn gen_all_words(&self, ctx: &Ctx, rng: &mut Rng, emit: &mut dyn FnMut(String)) {
+        let quick = ctx.quick();
+        let mut idx: u64 = 0;
+        let stride: u32 = if quick { 4 } else { 1 };
+        let off = (ctx.seed % stride as u64) as u32;
+        let mut one = |ws: &[u16], rng: &mut Rng, idx: &mut u64| {
+            *idx += 1;
+            if !ctx.mine(*idx) {
+                return;
+            }
+            let mut c = CaseB::new();
+            c.er = Self::addr_regs(rng);
+            c.ccr = rng.u8();
+            c.pc = code_addr(rng, 12);
+            // vectors / frames so that control transfers have somewhere to go
+            c.put_words(c.pc, ws);
+            emit(c.line());
+        };
+        // (a) all first words x following-word policies (zeros, random, most plausible continuation)
+        for w0 in 0..=0xffffu32 {
+            for policy in 0..3 {
+                if (w0 + policy + off) % stride != 0 && !quick {
+                    continue;
+                }
+                if quick && (w0 * 3 + policy + off) % stride != 0 {
+                    continue;
+                }
+                let tail: [u16; 4] = match policy {
+                    0 => [0, 0, 0, 0],
+                    1 => [rng.u16(), rng.u16(), rng.u16(), rng.u16()],
+                    _ => [(rng.u16() & 0x00ff) | *rng.pick(&[0x6900u16, 0x6b00, 0x6d00, 0x6f00, 0x7800, 0x6a00, 0x6300, 0x6700, 0x7000]), 0x6b20 | (rng.u16() & 0x8f), rng.u16() & 0xff, rng.u16()],
+                };
+                one(&[w0 as u16, tail[0], tail[1], tail[2], tail[3]], rng, &mut idx);
+            }
+        }
+        // (b) all second words of every prefix class
+        let prefixes: Vec<u16> = vec![0x0100, 0x0140, 0x01f0, 0x01c0, 0x01d0, 0x7800, 0x7810, 0x7870, 0x7c00, 0x7c30, 0x7d10, 0x7d70, 0x7e08, 0x7eff, 0x7f10, 0x7fb2, 0x6a00, 0x6a20, 0x6a80, 0x6aa5, 0x6b00, 0x6b29, 0x6ba0, 0x5800, 0x58c0, 0x7b5c, 0x7bd4, 0x0f00, 0x7a08];
+        for &p in &prefixes {
+            for w1 in 0..=0xffffu32 {
+                if quick && (w1 + off + p as u32) % (stride * 4) != 0 {
+                    continue;
+                }
+                one(&[p, w1 as u16, if rng.chance(1, 2) { 0x6ba0 } else { 0x6b20 | (rng.u16() & 0x8f) }, rng.u16() & 0x00ff, rng.u16()], rng, &mut idx);
+            }
+        }
+        // (c) third words after 0100 78r0 / 0140 78r0 / 78r0 6A2x
+        for &(p0, p1) in &[(0x0100u16, 0x7800u16), (0x0100, 0x7890), (0x0140, 0x7810), (0x0140, 0x7820)] {
+            for w2 in 0..=0xffffu32 {
+                if quick && (w2 + off) % (stride * 8) != 0 {
+                    continue;
+                }
+                one(&[p0, p1, w2 as u16, rng.u16() & 0x00ff, rng.u16()], rng, &mut idx);
+            }
+        }
+    }
+
+    /// C06: interrupt entry for every vector, TRAPA, and entry + RTE round trips (nested)
+    fn gen_entry_cases(&self, ctx: &Ctx, rng: &mut Rng, emit: &mut dyn FnMut(String)) {
+        let mut idx: u64 = 0;
+        let reps = if ctx.quick() { 6 } else { 60 };
+        for v in 1..64u32 {
+            for ccr in 0..256u32 {
+                if ctx.quick() && (ccr + v + ctx.seed as u32) % 4 != 0 {
+                    continue;
+                }
+                idx += 1;
+                if !ctx.mine(idx) {
+                    continue;
+                }
+                // entry alone (n=0), I clear so that it is accepted; every 8th with I set (stays pending)
+                let mut c = CaseB::new();
+                c.er = rand_regs(rng);
+                c.er[7] = data_addr(rng, 4, false).max(0x400010) & !3;
+                c.ccr = if ccr % 8 == 7 { ccr as u8 | 0x80 } else { ccr as u8 & 0x7f };
+                c.pc = code_addr(rng, 2);
+                let t = code_addr(rng, 2);
+                c.put(4 * v, &[rng.u8(), (t >> 16) as u8, (t >> 8) as u8, t as u8]);
+                c.n = 0;
+                c.irq = Some(vec![(0, v as u8)]);
+                emit(c.line());
+                // entry followed by RTE at the handler: context restored
+                let mut c2 = c.clone();
+                c2.n = 1;
+                c2.put_words(t, &[0x5670]);
+                emit(c2.line());
+            }
+        }
+        for _ in 0..reps * 200 {
+            idx += 1;
+            if !ctx.mine(idx) {
+                continue;
+            }
+            // nested: TRAPA #a at pc; handler a does TRAPA #b; handler b RTE; then RTE
+            let mut c = CaseB::new();
+            c.er = rand_regs(rng);
+            c.er[7] = (data_addr(rng, 4, false).max(0x400040) & !3) | if rng.chance(1, 3) { (rng.u8() as u32) << 24 } else { 0 };
+            c.ccr = rng.u8();
+            c.pc = code_addr(rng, 2);
+            let a = rng.range(1, 3) as u32;
+            let mut b = rng.range(1, 3) as u32;
+            if b == a {
+                b = a % 3 + 1;
+            }
+            let (ha, hb) = (0xffd000 + 0x100 * rng.below(8) as u32, 0x418000 + 0x100 * rng.below(8) as u32);
+            c.put(0x20 + 4 * a, &[rng.u8(), (ha >> 16) as u8, (ha >> 8) as u8, ha as u8]);
+            c.put(0x20 + 4 * b, &[rng.u8(), (hb >> 16) as u8, (hb >> 8) as u8, hb as u8]);
+            c.put_words(c.pc, &[0x5700 | ((a as u16) << 4)]);
+            c.put_words(ha, &[0x5700 | ((b as u16) << 4), 0x5670]);
+            c.put_words(hb, &[0x5670]);
+            c.n = 4;
+            emit(c.line());
+        }
+        // plain single TRAPA / RTE instances over all CCR
+        let forms: Vec<Form> = self.forms.iter().filter(|f| f.valid && f.is_family(&["TRAPA", "RTE"])).cloned().collect();
+        for form in &forms {
+            for ccr in 0..256u32 {
+                for _ in 0..(if ctx.quick() { 2 } else { 16 }) {
+                    idx += 1;
+                    if !ctx.mine(idx) {
+                        continue;
+                    }
+                    let mut fixed = BTreeMap::new();
+                    if form.name == "TRAPA" {
+                        fixed.insert('i', rng.range(1, 3));
+                    }
+                    let wild = rng.chance(1, 3);
+                    let mut c = instance(form, rng, GenOpt { wild_addr: wild, vary_bsc: false, vector_data: false }, &fixed);
+                    c.ccr = ccr as u8;
+                    emit(c.line());
+                }
+            }
+        }
+    }
+
+    /// C05: generated call/return programs (nesting depth 1..8), all call forms, RTS
+    fn gen_call_programs(&self, ctx: &Ctx, rng: &mut Rng, emit: &mut dyn FnMut(String)) {
+        let n = if ctx.quick() { 4000 } else { 60000 } / ctx.nshards;
+        for _ in 0..n {
+            let depth = rng.range(1, 8) as usize;
+            let mut c = CaseB::new();
+            c.er = rand_regs(rng);
+            c.ccr = rng.u8();
+            let sp_hi = if rng.chance(1, 3) { (rng.u8() as u32) << 24 } else { 0 };
+            c.er[7] = (if rng.chance(1, 2) { 0xffe800 } else { 0x41f000 } + 4 * rng.below(64) as u32) | sp_hi;
+            // function k lives at base + 0x40*k; code region RAM or DRAM
+            let base: u32 = if rng.chance(1, 2) { 0xffc000 } else { 0x416900 } + 0x400 * rng.below(8) as u32;
+            let faddr = |k: usize| base + 0x40 * k as u32;
+            let mut steps = 0u32;
+            for k in 0..=depth {
+                let mut ws: Vec<u16> = Vec::new();
+                // a harmless ALU instruction on a scratch register (ADDS #1,ER3 / INC.B R4L)
+                if rng.chance(1, 2) {
+                    ws.push(0x0b03);
+                    steps += 1;
+                }
+                if k < depth {
+                    let here = faddr(k) + 2 * ws.len() as u32;
+                    let target = faddr(k + 1);
+                    match rng.below(5) {
+                        0 => {
+                            // BSR d:8
+                            let d = target.wrapping_sub(here + 2) as i32;
+                            if (-128..128).contains(&d) {
+                                ws.push(0x5500 | (d as u8 as u16));
+                            } else {
+                                ws.push(0x5c00);
+                                ws.push(target.wrapping_sub(here + 4) as u16);
+                            }
+                        }
+                        1 => {
+                            ws.push(0x5c00);
+                            ws.push(target.wrapping_sub(here + 4) as u16);
+                        }
+                        2 => {
+                            ws.push(0x5e00 | ((target >> 16) as u16 & 0xff));
+                            ws.push(target as u16);
+                        }
+                        3 => {
+                            // JSR @ER(k%6), register preloaded with the target (upper byte arbitrary)
+                            let r = (k % 6) as u16;
+                            c.er[r as usize] = target | ((rng.u8() as u32) << 24);
+                            ws.push(0x5d00 | (r << 4));
+                        }
+                        _ => {
+                            // JSR @@aa:8 through a vector slot
+                            let slot = 0x40 + 4 * k as u32;
+                            c.put(slot, &[rng.u8(), (target >> 16) as u8, (target >> 8) as u8, target as u8]);
+                            ws.push(0x5f00 | slot as u16);
+                        }
+                    }
+                    steps += 1;
+                    if rng.chance(1, 2) {
+                        ws.push(0x0a0c); // INC.B R4L after the call returns
+                        steps += 1;
+                    }
+                }
+                if k > 0 {
+                    ws.push(0x5470);
+                    steps += 1;
+                } else {
+                    ws.push(0x0b04); // ADDS #1,ER4: the last instruction of main
+                    steps += 1;
+                }
+                c.put_words(faddr(k), &ws);
+            }
+            c.pc = faddr(0);
+            c.n = steps;
+            emit(c.line());
+        }
+    }
+}
+
 // ------------------------------------------------------------------------------------ judging
 
 fn parse_mem(s: &str) -> BTreeMap<u32, u32> {
@@ -885,7 +1118,8 @@ pub fn judge_step(ctx: &Ctx, case: &str, imp: &str, drv: &str) -> (Verdict, Stri
     let tags: Vec<&str> = field(s, "tags").unwrap_or("").split(',').filter(|t| !t.is_empty()).collect();
     let dc: Vec<&str> = field(s, "dc").unwrap_or("").split(',').filter(|t| !t.is_empty()).collect();
     let fam = family(prop);
-    let in_family = fam.iter().any(|p| form.starts_with(p)) && !(prop == "C06" && form == "TRAPA" && tags.contains(&"syscall"));
+    let in_family = (fam.iter().any(|p| form.starts_with(p)) || ((form == "IRQ" || form == "SEQ") && matches!(prop, "C05" | "C06" | "C10")))
+        && !(prop == "C06" && form == "TRAPA" && tags.contains(&"syscall"));
     let tags_ok = tags.iter().all(|t| allowed_tags(prop).contains(t));
     // C15: the only requirement is "never a panic"
     if prop == "C15" {
